@@ -47,7 +47,6 @@ let cmd_gs c =
   out "wf" (s_bool (wf_lat l));
   (match getstate l with
    | GSTooManyVertices -> out "status" "toomany"
-   | GSEmptyCrossing -> out "status" "emptycrossing"
    | GSCrossingRange -> out "status" "crossrange"
    | GSPosOverflow -> out "status" "posoverflow"
    | GSOk t ->
